@@ -13,6 +13,12 @@ MODE_CONST = {'numeric': 1, 'alphanumeric': 2, 'byte': 4, 'kanji': 8, 'hanzi': 1
 CONST_MODE = {v: k for k, v in MODE_CONST.items()}
 
 
+def stable_hash(*key):
+    """32 bit hash of the key, independent of PYTHONHASHSEED."""
+    import hashlib
+    return int.from_bytes(hashlib.sha1(repr(key).encode('utf-8')).digest()[:4], 'big')
+
+
 # ------------------------------------------------------------------ content codec
 def enc_content(c):
     """Python content -> JSON value."""
